@@ -4,7 +4,7 @@ import struct
 from bumble import core, l2cap
 from pyvc.contracts import (Any, Bool, Bytes, Callback, DequeOf, Event, Inst, Int, IntRange, ListOf, OneOf, Opaque, Opt,
                             contract, forall, iff, implies, lemma, model, at, ite)
-from pyvc.ext_c07 import all_nonempty, flat
+from pyvc.ext_c07 import all_nonempty, flat, own_fresh
 from spec.coc import (is_sdu_prefix, le16, ledger_ok, payload_part, rs_complete, rs_overflow, rs_pending, sdu_frame)
 
 ENVIRONMENT = [
@@ -437,10 +437,10 @@ contract(
     'bumble.l2cap:LeCreditBasedChannel.flush_output',
     prop='C07',
     params=dict(self=CHAN),
-    ensures=lambda self: [self.out_sdu is None, len(self.out_queue) == 0],
-    ensures_names=['no-sdu', 'queue-empty'],
-    modifies=['self.out_sdu', 'self.out_queue'],
-    note='used on disconnection only: what was not sent is discarded, no stream claim',
+    ensures=lambda self, old: [self.out_sdu is None, len(self.out_queue) == 0, implies(old.self.drained.is_set(), self.drained.is_set())],
+    ensures_names=['no-sdu', 'queue-empty', 'drained-not-cleared'],
+    modifies=['self.out_sdu', 'self.out_queue', 'self.drained'],
+    note='used on disconnection only: what was not sent is discarded, no stream claim; the drained flag may be set (the channel is idle afterwards) but is never cleared',
 )
 
 
@@ -450,7 +450,9 @@ contract(
 _NEW_FIELDS = ['manager', 'connection', 'psm', 'source_cid', 'destination_cid', 'mtu', 'mps', 'credits', 'peer_mtu', 'peer_mps',
                'peer_credits', 'peer_max_credits', 'peer_credits_threshold', 'in_sdu', 'in_sdu_length', 'out_queue', 'out_sdu', 'sink',
                'connected', 'connection_result', 'disconnection_result', 'drained', 'att_mtu', 'state']
-model('bumble.l2cap:LeCreditBasedChannel#new', fields={f: Any for f in _NEW_FIELDS})
+# the object __init__ receives: a bare instance, NO instance attribute yet -- a read of a name __init__ did not assign
+# falls back to the class attribute of the real class (as in CPython), e.g. a class-level default `out_queue = deque()`
+model('bumble.l2cap:LeCreditBasedChannel#new', fields={})
 INIT = int(l2cap.LeCreditBasedChannel.State.INIT)
 CONNECTION_ERROR = int(l2cap.LeCreditBasedChannel.State.CONNECTION_ERROR)
 
@@ -507,8 +509,16 @@ contract(
         # the representation invariants of both directions hold from the start
         wf_rx(self),
         implies(peer_credits >= 1, wf_ledger(self)),
+        # the mutable per-channel objects belong to THIS channel: assigned by __init__ to the instance and created
+        # by this call (a class-level default would be one object shared by every channel: bytes written to one
+        # channel would leave on another -- the stream claim of every channel rests on its own out_queue)
+        own_fresh(self, 'out_queue'),
+        own_fresh(self, 'drained'),
+        # everything else the other contracts read as per-channel state is set on the instance or is an immutable default
+        self.connection_result is None and self.disconnection_result is None,
     ],
-    ensures_names=FRESH_NAMES + ['psm', 'state', 'wf-short', 'wf-known', 'ledger'],
+    ensures_names=FRESH_NAMES + ['psm', 'state', 'wf-short', 'wf-known', 'ledger', 'out-queue-is-this-channels-own-new-deque',
+                                 'drained-is-this-channels-own-new-event', 'no-result-futures-yet'],
     modifies=['self.*'],
     inline=['EventEmitter.__init__', '*EventEmitter.__init__'],
 )
